@@ -169,6 +169,7 @@ func main() {
 			return true, ""
 		}
 	}
+	os.RemoveAll(filepath.Join(verifDir(), "replays", prop)) // artefacts of earlier runs
 	exit, vd := Judge(prop, res.Violations, confirm)
 	if res.Coverage == nil {
 		res.Coverage = map[string]interface{}{}
